@@ -14,18 +14,18 @@ harness's complex adjoint chi_c); no library routine checks itself.  u = 2^-53, 
     similarity    ||P A P^H - B||_F                         <= C_SIM  * n^2 * u * a
                   (a real test: the clean-up step DISCARDS whatever is off-band or imaginary, so only a
                    correct reduction with the right phases satisfies it)
-    spectrum      max_i |lam_i(B) - lam_i(A)|               <= C_EIG  * n^2 * u * a   (ref.eigvalsh of both)
+    spectrum      max_i |lam_i(B) - lam_i(A)|               <= C_EIG  * (n+3)^2 * u * a   (ref.eigvalsh of both)
   quaternion_eigendecomposition(A) -> (w, V), n >= 1
-    real          max |Im w|                                <= C_EIG  * n^2 * u * a
-    spectrum      max_i |sort(Re w)_i - lam_i(A)|           <= C_EIG  * n^2 * u * a
+    real          max |Im w|                                <= C_EIG  * (n+3)^2 * u * a
+    spectrum      max_i |sort(Re w)_i - lam_i(A)|           <= C_EIG  * (n+3)^2 * u * a
     unitarity     ||V^H V - I||_F                           <= C_UNIT * n   * u
-    eigenpairs    ||A V - V diag(Re w)||_F                  <= C_SIM  * n^2 * u * a
-    reconstruction||A - V diag(Re w) V^H||_F                <= C_SIM  * n^2 * u * a
+    eigenpairs    ||A V - V diag(Re w)||_F                  <= C_SIM  * (n+3)^2 * u * a
+    reconstruction||A - V diag(Re w) V^H||_F                <= C_SIM  * (n+3)^2 * u * a
     accessors     quaternion_eigenvalues / quaternion_eigenvectors return the pair bit-for-bit
   both            argument unchanged (byte hash)
   rejections      non-square input, and input that is non-Hermitian by a clear margin, raise (all four entry points)
-  reflector       householder_matrix(a, e1) (column branch): unitary, maps a to |a| e1 (the step both reductions
-                  are built from)
+  reflector       householder_matrix(a, e1) (column branch, a of length k): ||h^H h - I||_F <= C_UNIT (k+1) u and
+                  ||h a - |a| e1||_F <= C_UNIT (k+1) u |a|   (the step both reductions are built from)
 
 Derivation of the constants (n <= 8 is generated):
   * one reduction step does P <- fl(Q P), B <- fl(fl(P A) P^H); a quaternion dot product of length n has 4n real
@@ -40,7 +40,11 @@ Derivation of the constants (n <= 8 is generated):
     similarity residual bounds it; LAPACK's own error on B and on chi_c(A) is O(n u a) (dominates for n <= 2).
   * B[i+1,i] and B[i,i+1] are the real parts of two separately rounded entries of the same Hermitian product:
     they differ by two dot-product errors, <= 8 n u a each step: C_SYM n with C_SYM = 100.
-  Observed worst error/bound on a tree with a symmetric eigensolver: see evidence/C08.json (<= ~1e-2 everywhere).
+  * (n+3)^2 instead of n^2 in the eigen lines: the n-independent costs (the tridiagonal eigensolver, LAPACK on
+    the harness's 2n x 2n adjoint, the harness's own two or three products with V) have O(1) constants that dominate
+    for n <= 3; with "+3" the measured worst error/bound is flat in n (calibration run, 9000 cases, n = 1..8).
+  Observed worst error/bound on a tree with a symmetric eigensolver: <= ~1e-2 on every line (evidence/C08.json);
+  the planted mutants and the eig-on-repeated-eigenvalues defect exceed the bounds by >= 1e8.
 
 Input classes (tags, computed from the INPUT only: ref.eigvalsh(A) and the zero pattern of A):
   eig_repeated   min gap of the reference spectrum <= 1e-9 * max|lam|      (a multiple eigenvalue; zero matrix included)
@@ -236,7 +240,7 @@ def check_tridiag(A, out, lam):
     out.le(f"{s}:P A P^H = B", res, C_SIM * n * nu * a + tiny, f"||P A P^H - B||_F, ||A||_F={a:.3e}")
     # ---- spectrum of the real symmetric tridiagonal B (LAPACK on the harness's adjoint of B)
     lamB = ref.eigvalsh(B)
-    out.le(f"{s}:spectrum of B = spectrum of A", float(np.max(np.abs(lamB - lam))), C_EIG * n * nu * a + tiny,
+    out.le(f"{s}:spectrum of B = spectrum of A", float(np.max(np.abs(lamB - lam))), C_EIG * (n + 3) ** 2 * U_ * a + tiny,
            "max_i |lam_i(B) - lam_i(A)|")
     out.sample = dict(out.sample or {}, n=n, normA=a, P_unitarity_defect=ref.unitarity_defect(P),
                       similarity_residual_rel=(res / a) if a else 0.0)
@@ -273,7 +277,7 @@ def check_eigen(A, out, lam):
     a = ref.fro(A)
     tiny = 1e-300 if a == 0.0 else 0.0
     nu = n * U_
-    beig = C_EIG * n * nu * a + tiny
+    beig = C_EIG * (n + 3) ** 2 * U_ * a + tiny
     out.le(f"{s}:eigenvalues real", float(np.max(np.abs(wi))), beig, "max |Im lambda|")
     if not np.any(wi != 0.0):
         out.label("eigenvalues_imag_exactly_zero")
@@ -282,7 +286,7 @@ def check_eigen(A, out, lam):
     defect = ref.unitarity_defect(V)
     out.le(f"{s}:V^H V = I", defect, C_UNIT * nu, "||V^H V - I||_F")
     VL = ref.scale_cols(V, wr)
-    bres = C_SIM * n * nu * a + tiny
+    bres = C_SIM * (n + 3) ** 2 * U_ * a + tiny
     r1 = ref.fro(ref.qmm(A, V) - VL)
     out.le(f"{s}:A V = V diag(lambda)", r1, bres, f"||A V - V Lambda||_F, ||A||_F={a:.3e}")
     r2 = ref.fro(A - ref.qmm(VL, ref.conjT(V)))
@@ -805,11 +809,11 @@ def check_reflector(case):
     h = F(hq)
     if not out.true(f"{s}:finite", bool(np.all(np.isfinite(h))), "NaN/Inf in the reflector"):
         return out
-    out.le(f"{s}:unitary", ref.unitarity_defect(h), C_UNIT * k * U_, "||h^H h - I||_F")
+    out.le(f"{s}:unitary", ref.unitarity_defect(h), C_UNIT * (k + 1) * U_, "||h^H h - I||_F")
     ha = ref.qmm(h, a.reshape(k, 1, 4)).reshape(k, 4)
     target = np.zeros((k, 4))
     target[0, 0] = alpha
-    out.le(f"{s}:h a = |a| e1", ref.fro(ha - target), C_SIM * k * U_ * alpha + (1e-300 if alpha == 0 else 0.0),
+    out.le(f"{s}:h a = |a| e1", ref.fro(ha - target), C_UNIT * (k + 1) * U_ * alpha + (1e-300 if alpha == 0 else 0.0),
            "||h a - |a| e1||_F")
     return out
 
@@ -823,12 +827,12 @@ PROPERTY = Property(
           "Distinct = distinct input digest."),
     clauses=[
         Clause("tridiagonalize", check_tri_generated, strategy=lambda tier: hermitian_cases(tier, nmin=2),
-               budget={"quick": 1600, "thorough": 24000}),
+               budget={"quick": 4000, "thorough": 60000}),
         Clause("eigendecomposition", check_eig_generated, strategy=lambda tier: hermitian_cases(tier, nmin=1),
-               budget={"quick": 1600, "thorough": 24000}),
+               budget={"quick": 4000, "thorough": 60000}),
         Clause("witness_grid", check_witness, enumerate=enum_witnesses, budget={"quick": 0, "thorough": 0}),
-        Clause("rejections", check_rejection, strategy=rejection_cases, budget={"quick": 480, "thorough": 4000}),
-        Clause("reflector", check_reflector, strategy=reflector_cases, budget={"quick": 320, "thorough": 3000}),
+        Clause("rejections", check_rejection, strategy=rejection_cases, budget={"quick": 1200, "thorough": 12000}),
+        Clause("reflector", check_reflector, strategy=reflector_cases, budget={"quick": 800, "thorough": 8000}),
     ],
     assumptions=[
         "numpy-quaternion dtype conversions (as_quat_array/as_float_array) are trusted",
